@@ -325,10 +325,12 @@ def check_contract(c, integ, rec, t0dt, fails, worst):
         x = exact_steps(t0, t0dt, tmax)
         cx = ceil_frac(x)
         T = max(abs(t0), abs(tmax))
-        noise = Fraction(math.ulp(T)) * (cx + 2) / abs(Fraction(t0dt))          # accumulated rounding of t, in steps
+        adds = 2 if KIND[integ] == "halves" else 1
+        noise = Fraction(math.ulp(T)) * (cx + 2) * adds / 2 / abs(Fraction(t0dt))   # worst accumulated rounding of t, in steps
         near_int = min(x - (x.numerator // x.denominator), Fraction(ceil_frac(x)) - x)
         amb = near_int <= noise + Fraction(1, 10 ** 12) * Fraction(T) / abs(Fraction(t0dt)) if T > 0 else near_int == 0
-        ok = (n == cx) or (amb and abs(n - cx) <= 1) or (amb and x == cx and n == cx + 1)
+        slack = max(1, ceil_frac(noise))          # 1 for well-scaled triples; more only when dt is a few ulp of t
+        ok = (n == cx) or (amb and abs(n - cx) <= slack)
         worst["step_count_ambiguous"] = worst.get("step_count_ambiguous", 0) + (1 if amb else 0)
         if n == cx + 1 and exact == 1 and len(beats) >= 2:
             extra = abs(beats[-1][0] - beats[-2][0])
@@ -772,7 +774,7 @@ def search_more(c, H, scratch, fails, worst):
                                 steps_split=simA.steps_done, steps_single=simB.steps_done, dt_after_split=simA.dt)
                     if reversed_:
                         split_stats["reversing_partitions"] += 1
-                        fails.append(("F18:split-overshoot-reverses",
+                        fails.append(("C08-N1:split-overshoot-reverses",
                                       "integrate(t1); integrate(t2) with exact_finish_time=0 and a step that carries the first call past t2 "
                                       "turns the second call into a backward integration (ends before t2, dt sign flipped)", rep_))
                     else:
@@ -835,9 +837,12 @@ def search_more(c, H, scratch, fails, worst):
     trace_bad = []
     for i in range(nT):
         rng = c.rng.fork()
+        # every other probe has a deep pericentre passage (e = 0.95): the pericentre switch of TRACE is what F10 is about
         job = dict(integrator="trace", t0=0.0, dt=rng.choice([0.01, 0.05]), tmax=-rng.uniform(0.5, 3.0), exact=rng.choice([0, 1]),
-                   third=(i % 2 == 1), e=0.05, cap=5000)
-        r = probe(scratch, job)
+                   third=(i % 2 == 1), e=(0.95 if i % 2 == 0 else 0.05), cap=5000)
+        if job["e"] > 0.5:
+            job["tmax"] = -rng.uniform(5.0, 7.0)
+        r = probe(scratch, job, timeout=60)
         c.count(("probe", "trace-backward", i))
         ok = r["outcome"] == "ok" and r["status"] == "ok" and r.get("mono") and \
             (abs(r["t"] - job["tmax"]) <= 1e-12 * abs(job["tmax"]) if job["exact"] == 1 else r["t"] <= job["tmax"]) and r["dt"] < 0
@@ -862,7 +867,7 @@ def search_more(c, H, scratch, fails, worst):
             hang.append(dict(job=job, result=r))
     probes["absorbed_step"] = {"runs": nH, "hangs_or_errors": len(hang)}
     if hang:
-        fails.append(("F19:absorbed-step-hang", "integrate() never returns when |t| is so large that t + dt == t in double precision "
+        fails.append(("C08-N2:absorbed-step-hang", "integrate() never returns when |t| is so large that t + dt == t in double precision "
                       "(the loop makes no progress and has no guard)", hang[0]))
     c.cov["subprocess_probes"] = probes
 
